@@ -272,8 +272,10 @@ def promiseResolveM (prog : Prog) (x : Val) : M Nat := do
     capResolve prog cap x
     return cap.promise
 
+/-- `setP(d, r)`: promises with an overridden own `then` are never stored in a slot (keeps every program terminating:
+a thenable's body can then never get hold of a promise whose `then` is itself). -/
 def setSlot (d : Nat) (q : Nat) : M Unit :=
-  modify fun st => { st with slots := setExt st.slots d (some q) none }
+  modify fun st => if (lookupId st.bad q).isSome then st else { st with slots := setExt st.slots d (some q) none }
 
 def hfn (f : Option Nat) : Option Fn := f.map Fn.user
 
